@@ -3,6 +3,7 @@ import cpc_rules as P
 import chains
 import cowrite
 import generic_lints
+import twins
 
 
 def run(facts, tier):
@@ -16,6 +17,7 @@ def run(facts, tier):
         ("canonical chains", lambda fa: chains.obligations(fa, ["cpc"]), 11, "typed update overloads follow the cross-language canonicalisation contract"),
         ("couplings", lambda fa: cowrite.obligations(fa, ['u32_table']), 2, "fields that every mutator updates together (counters, extremes, cached values) are still updated together"),
         ("duplicate operands", lambda fa: generic_lints.duplicate_conjuncts(fa, ('cpc/',)), 2, "no logical chain tests the same operand twice (copy-paste of the wrong peer)"),
+        ("overload twins", lambda fa: twins.overload_twins(fa, ('cpc/',)), 1, "const& and && overloads of one operation have identical bodies modulo std::move/forward"),
     ):
         o = f(facts)
         obs += o
